@@ -175,6 +175,13 @@ func start(opts Options, old []*User) (*Server, error) {
 
 	s.G, s.ctx, s.cancel = g, ctx, cancel
 
+	// An application reads the server's error channel; unread errors would keep the channel's goroutine alive
+	// after Close.
+	go func() {
+		for range g.GetErrorCh() {
+		}
+	}()
+
 	for i, spec := range opts.Users {
 		var conn *hconn.Connector
 
@@ -276,6 +283,12 @@ func (s *Server) Quiesce(user int, timeout time.Duration) error {
 }
 
 // Close shuts the server down (listener, users, backend).
+// CancelServe cancels the Serve context (for callers that closed the gluon server themselves).
+func (s *Server) CancelServe() {
+	s.closed = true
+	s.cancel()
+}
+
 func (s *Server) Close() error {
 	if s.closed {
 		return nil
